@@ -123,6 +123,9 @@ class SymBuilder:
     def getattr(self, o, name):
         return self.ctx.getattr(o, name)
 
+    def setattr(self, o, name, v):
+        self.ctx.setattr(o, name, v)
+
 
 def native_lookup(qual):
     rel, name = qual.split("::")
@@ -222,6 +225,9 @@ class NativeBuilder:
 
     def getattr(self, o, name):
         return getattr(o, name)
+
+    def setattr(self, o, name, v):
+        setattr(o, name, v)
 
 
 class AssumptionFailed(Exception):
